@@ -229,6 +229,9 @@ func evalDoc(c *rt.Case) (bool, string, string, error) {
 		if c.X["probes"] == "circles" {
 			extra = circleProbes
 		}
+		if c.X["probes"] == "bbox" {
+			extra = bboxProbes
+		}
 		c08One(c.Doc, optSet{c.X["base"], optByName(c.X["base"])}, os, extra, emit)
 	default:
 		return false, "", "", fmt.Errorf("unknown doc op")
